@@ -20,11 +20,15 @@ type memoryQueue struct {
 	queue PriorityQueue
 	key   string
 	mutex sync.RWMutex
+	// first enqueue time per item: an item that is dequeued and enqueued again (its turn had
+	// come but it was blocked) keeps its place among items of the same priority
+	firstEnqueuedAt map[string]int64
 }
 
 func NewMemoryQueue(key string, _ time.Duration) publictypes.SharedQueueI {
 	memoryQueue := &memoryQueue{
-		key: fmt.Sprintf("%s%s", key, queueKeySuffix),
+		key:             fmt.Sprintf("%s%s", key, queueKeySuffix),
+		firstEnqueuedAt: make(map[string]int64),
 	}
 	heap.Init(&memoryQueue.queue)
 	return memoryQueue
@@ -34,10 +38,15 @@ func (q *memoryQueue) Enqueue(item string, priority float64) error {
 	q.mutex.Lock()
 	defer q.mutex.Unlock()
 
+	timestamp, seenBefore := q.firstEnqueuedAt[item]
+	if !seenBefore {
+		timestamp = time.Now().UnixNano()
+		q.firstEnqueuedAt[item] = timestamp
+	}
 	heap.Push(&q.queue, &Item{
 		value:     item,
 		score:     calculateScore(priority),
-		timestamp: time.Now().UnixNano(),
+		timestamp: timestamp,
 	})
 	return nil
 }
@@ -63,6 +72,7 @@ func (q *memoryQueue) DequeueIfValueRelevant() string {
 func (q *memoryQueue) Remove(item string) {
 	q.mutex.Lock()
 	defer q.mutex.Unlock()
+	delete(q.firstEnqueuedAt, item)
 
 	for i, v := range q.queue {
 		if v.value == item {
